@@ -486,7 +486,7 @@ def unsettle : List Expr → Option (List Expr × List Err)
 
 def rebuild : Shape → List Expr → Out
   | .single, [v] => .ok v
-  | .seqOf k, vs => .ok (.cont k vs)
+  | .seqOf k, vs => if contOk k vs then .ok (.cont k vs) else .unk
   | .dictOf n, vs => if keysOk (vs.take n) then .ok (.dict (vs.take n) (vs.drop n)) else .unk
   | _, _ => .unk
 
@@ -520,11 +520,12 @@ def bindO (rs : Outs) (k : Expr → Outs) : Outs :=
     | .err e => [.err e]
     | .unk => [.unk]
 
+def onList (k : List Expr → Outs) : Expr → Outs
+  | .cont .list vs => k vs
+  | _ => [.unk]
+
 /-- continue with the elements of an evaluated list -/
-def bindL (rs : Outs) (k : List Expr → Outs) : Outs :=
-  bindO rs fun
-    | .cont .list vs => k vs
-    | _ => [.unk]
+def bindL (rs : Outs) (k : List Expr → Outs) : Outs := bindO rs (onList k)
 
 /-- outcome(s) of a Python-level step followed by evaluation of what it returned -/
 def thenEval (rec : Expr → Outs) : Out → Outs
@@ -549,13 +550,12 @@ def joinList : List Outs → Outs
 def evalList (rec : Expr → Outs) (es : List Expr) : Outs := joinList (es.map rec)
 
 def condGo (rec : Expr → Outs) : List Expr → Outs
-  | c :: t :: rest =>
+  | [c, t] =>
     bindO (rec c) fun cv =>
-      if truthy cv then rec t
-      else match rest with
-        | [] => [.err ⟨"IndexError", "tuple index out of range"⟩]
-        | [e] => rec e
-        | _ => condGo rec rest
+      if truthy cv then rec t else [.err ⟨"IndexError", "tuple index out of range"⟩]
+  | [c, t, e] => bindO (rec c) fun cv => if truthy cv then rec t else rec e
+  | c :: t :: c2 :: t2 :: rest =>
+    bindO (rec c) fun cv => if truthy cv then rec t else condGo rec (c2 :: t2 :: rest)
   | _ => [.unk]
 
 def seqGo (rec : Expr → Outs) : List Expr → Outs
@@ -790,8 +790,12 @@ inductive Eval (lib : Lib) : Expr → Out → Prop
   -- evaluates (as any task result) before `subrun.then` unwraps it
   | subrunOk {e ne v k v'} : Eval lib e (.ok v) → Eval lib (.dict [.str "result"] [v]) (.ok (.dict [k] [v'])) →
       Eval lib (.subrun e ne) (.ok v')
+  | subrunOkErr {e ne v x} : Eval lib e (.ok v) → Eval lib (.dict [.str "result"] [v]) (.err x) →
+      Eval lib (.subrun e ne) (.err x)
   | subrunErrNew {e x} : Eval lib e (.err x) → Eval lib (.subrun e true) (.err x)
   | subrunErrExt {e x k y} : Eval lib e (.err x) →
       Eval lib (.dict [.str "error"] [.errv x]) (.ok (.dict [k] [.errv y])) → Eval lib (.subrun e false) (.err y)
+  | subrunErrExtErr {e x y} : Eval lib e (.err x) →
+      Eval lib (.dict [.str "error"] [.errv x]) (.err y) → Eval lib (.subrun e false) (.err y)
 
 end RedunModel.EvalCore
